@@ -94,6 +94,45 @@ Section WithMR.
       split; [lia|]. split; [apply Hbp; reflexivity|]. exact Hc4.
   Qed.
 
+
+  (* termination of mp_nextprime within the model's fuel, given a prime in (i, 2i] (Bertrand's postulate provides one) *)
+  Theorem nextprime_total_bertrand : forall i, (i < 2 \/ exists q, prime q /\ i < q <= 2 * i) ->
+    exists p, mp_nextprime mr i = Ok p.
+  Proof.
+    intros i H. unfold mp_nextprime. destruct (i <? 2) eqn:E; [eexists; reflexivity|].
+    destruct H as [H|(q & Hq & Hr)]; [lia|].
+    assert (H0 := np_inv_init i ltac:(lia)).
+    set (c0 := if Z.rem i 2 =? 0 then i + 1 else i + 2) in *.
+    assert (Hc0 : i < c0 <= i + 2) by (unfold c0; destruct (Z.rem i 2 =? 0); lia).
+    clearbody c0.
+    assert (Hqodd : q mod 2 = 1).
+    { assert (H2 := prime_ge_2 _ Hq). destruct (Z.eq_dec (q mod 2) 0) as [E0|E0]; [|lia].
+      exfalso. apply (even_not_prime' q); auto; lia. }
+    pose (Inv := fun c => np_inv i c /\ c <= q).
+    assert (Hinit : Inv c0).
+    { split; auto. destruct H0 as (_ & _ & Hodd & Hnone).
+      destruct (Z_le_gt_dec c0 q); auto. exfalso. apply (Hnone q); auto; lia. }
+    destruct (run_loop_terminates (nextprime_step mr) Inv (fun c => Z.to_nat (q - c))) with (fuel := Z.to_pos (c0 + 2)) (s := c0)
+      as [res Hres]; auto.
+    { intros s s' [Hs Hle] Hstep. assert (Hs' := np_inv_step i s s' Hs Hstep).
+      unfold nextprime_step in Hstep. destruct (probab_prime_spec s) as (b & Hb & Hbp). rewrite Hb in Hstep.
+      destruct Hs as (Hs1 & Hs2 & Hs3 & Hs4). rewrite Z.abs_eq in Hbp by lia.
+      destruct b; inversion Hstep; subst.
+      assert (s <> q) by (intros ->; destruct Hbp as [_ Hp]; specialize (Hp Hq); discriminate).
+      split; [split; auto; lia | lia]. }
+    { lia. }
+    rewrite Hres. cbn [bind].
+    destruct (run_loop_exit (nextprime_step mr) Inv) with (fuel := Z.to_pos (c0 + 2)) (s := c0) (r := res)
+      as [c [[Hc _] Hexit]]; auto.
+    { intros s s' [Hs Hle] Hstep. split; [eapply np_inv_step; eauto|].
+      unfold nextprime_step in Hstep. destruct (probab_prime_spec s) as (b & Hb & Hbp). rewrite Hb in Hstep.
+      destruct Hs as (Hs1 & Hs2 & Hs3 & Hs4). rewrite Z.abs_eq in Hbp by lia.
+      destruct b; inversion Hstep; subst.
+      assert (s <> q) by (intros ->; destruct Hbp as [_ Hp]; specialize (Hp Hq); discriminate). lia. }
+    unfold nextprime_step in Hexit. destruct (probab_prime_spec c) as (b & Hb & Hbp). rewrite Hb in Hexit.
+    destruct b; inversion Hexit; subst. eexists; reflexivity.
+  Qed.
+
   (* ---------------------------------------------------------------- perfect powers *)
   Lemma ilogb_double_ge : forall i, Z.log2 (Z.abs i) <= 2147483647 -> Z.log2 (Z.abs i) <= ilogb_double i.
   Proof.
